@@ -12,6 +12,8 @@ stand-in vs. vf.ref.javahash; client-side: errors delivered to the handlers.
 """
 import itertools
 import os
+import threading
+import time
 
 from ..probes import client as pc
 from ..ref import javahash
@@ -110,7 +112,9 @@ def run_login(run, rng, pv, order, threshold, terminal, server_id, auth,
     # (two allowed versions, a status query answered with `pv`), so that the
     # login state machine is also exercised with whatever the status phase
     # left behind in the connection object.
-    negotiated = rng.random() < 0.33
+    early_reset = terminal[0] != 'success' and rng.random() < 0.15
+    server_closed = threading.Event()
+    negotiated = rng.random() < 0.33 and not early_reset
     other_pv = 757 if pv != 757 else 340
     stages = (['prior'] if prior else []) + \
         (['status'] if negotiated else []) + ['judged']
@@ -136,6 +140,16 @@ def run_login(run, rng, pv, order, threshold, terminal, server_id, auth,
             return status_handler(io)
         if stage == 'extra':
             state['errors'].append('unexpected extra connection')
+            return
+        if early_reset:
+            # the server refuses at once: disconnect packet, then a reset,
+            # before it has read a single byte from the client (whose own
+            # first write is held back until then and so fails)
+            did, dp = codec.encode('login_disconnect', {'reason': terminal[1]})
+            io.send_frame(did, dp)
+            time.sleep(0.01)
+            io.close(abrupt=True)
+            server_closed.set()
             return
         hs = scripts.read_handshake(io)
         state['handshake'] = hs
@@ -281,6 +295,9 @@ def run_login(run, rng, pv, order, threshold, terminal, server_id, auth,
         conn = pc.make_connection(server.port, rec, allowed_versions={pv},
                                   decoy=rng.random() < 0.3, **kw)
         w['negotiated'] = negotiated
+        conn.vf_rng = rng
+        conn.vf_short_reads = rng.random() < 0.5   # frames arrive in pieces
+        w['short_reads'] = conn.vf_short_reads
         if user_handler:
             from minecraft.networking.packets import clientbound, serverbound
 
@@ -326,6 +343,19 @@ def run_login(run, rng, pv, order, threshold, terminal, server_id, auth,
             del chat_gate[:]
             run.count('logins.second_connection_of_object')
         n_req0 = len(ygg.requests)
+        if early_reset:
+            from minecraft.networking.packets import serverbound as _sb
+            held = []
+
+            def hold(packet):
+                if not held:
+                    held.append(1)
+                    server_closed.wait(5.0)
+            conn.register_packet_listener(
+                hold, _sb.handshake.HandShakePacket, early=True,
+                outgoing=True)
+            w['early_reset'] = True
+            run.count('logins.refused_with_reset_before_reading')
         if negotiated:
             conn.allowed_proto_versions = {pv, other_pv}
             run.count('logins.negotiated')
